@@ -166,6 +166,23 @@ template <size_t K, typename T> struct Nat {
         s2 = b; s2 /= t; CHK(same(s, s2), "rint/=c");
         return to_hex(s) + bad;
     }
+    // ---- rint function forms with a native operand of ANY sign: add/sub(rint&, const rint&, T), add/sub(rint&, T) and the carry forms
+    static std::string saddf(const ruint<K>& x, T t) {
+        using namespace RecInt;
+        std::string bad; SI b(x), s, s2, d, d2; garbage(s); garbage(d);
+        add(s, b, t); s2 = b; add(s2, t); CHK(same(s, s2), "add(rint,c)");
+        { bool cs = false; SI s3; garbage(s3); add(cs, s3, b, t); CHK(same(s, s3), "add(r,rint,rint,c)"); SI s4(b); add(cs, s4, t); CHK(same(s, s4), "add(r,rint,c)"); }
+        sub(d, b, t); d2 = b; sub(d2, t); CHK(same(d, d2), "sub(rint,c)");
+        { bool cs = false; SI d3; garbage(d3); sub(cs, d3, b, t); CHK(same(d, d3), "sub(r,rint,rint,c)"); SI d4(b); sub(cs, d4, t); CHK(same(d, d4), "sub(r,rint,c)"); }
+        return to_hex(s) + " " + to_hex(d) + bad;
+    }
+    // ---- rint remainder, the divisor a rint built from the native value (any sign, |c| > 1)
+    static std::string sremo(const ruint<K>& x, T t) {
+        using namespace RecInt;
+        std::string bad; SI b(x), m(t), r, r2; garbage(r);
+        div_r(r, b, m); r2 = b % m; CHK(same(r, r2), "rint%rint"); r2 = b; r2 %= m; CHK(same(r, r2), "rint%=rint");
+        return to_hex(r) + bad;
+    }
     // ---- compare: cmp and the twelve operators, for ruint and rint
     static std::string cmpo(const ruint<K>& x, T t) {
         using namespace RecInt;
@@ -275,6 +292,8 @@ template <size_t K, typename T> static bool common_ops(const std::string& op, co
     else if (op == "divo") out = Nat<K, T>::divo(x, t);
     else if (op == "modo") out = Nat<K, T>::modo(x, t);
     else if (op == "sdivo") out = Nat<K, T>::sdivo(x, t);
+    else if (op == "saddf") out = Nat<K, T>::saddf(x, t);
+    else if (op == "sremo") out = Nat<K, T>::sremo(x, t);
     else if (op == "cmp") out = Nat<K, T>::cmpo(x, t);
     else if (op == "bit") out = Nat<K, T>::bito(x, t);
     else if (op == "ctor") out = Nat<K, T>::ctor(t, a.size() > 2 && mpz_sgn(*a[2]) != 0);
